@@ -1495,7 +1495,7 @@ class FortranReaderBase:
                 # check for label
                 s = line[:5].strip().lower()
                 if s:
-                    label = int(s)
+                    label = int(s.replace(" ", ""))
                 if not self._format.is_f77:
                     m = _CONSTRUCT_NAME_RE.match(line[6:])
                     if m and line[6:][m.end() :].strip():
